@@ -118,7 +118,7 @@ Definition verify_with_public (ctx : bytes) (pk : nat) (data : bytes) (s : signa
 Inductive sender :=
 | SenderOf (k : nat)   (* a peer ID embedding the public key of k *)
 | SenderBadID          (* does not decode to a peer ID *)
-| SenderBadKey         (* a peer ID whose embedded key does not parse *)
+| SenderBadKey         (* a peer ID whose embedded key does not parse, or is not canonically encoded *)
 | SenderEmpty.
 
 Record smsg := { m_from : sender; m_sig : signature; m_data : bytes }.
